@@ -184,4 +184,20 @@ def guardFreeVariants : List (Name Ã— Nat Ã— List (Option Name Ã— Bool Ã— Ty)) â
   | (_, _, fs) :: vs => guardFreeFields fs && guardFreeVariants vs
 end
 
+mutual
+/-- the type is empty on the wire: every value encodes to zero bytes -/
+def wireZero : Ty â†’ Bool
+  | .array n t => n == 0 || wireZero t
+  | .prod k fs =>
+    (match k with
+     | .sockV4 | .sockV6 => false
+     | _ => true) && wireZeroFields fs
+  | .wrap _ t => wireZero t
+  | _ => false
+/-- every field that is on the wire is empty -/
+def wireZeroFields : List (Option Name Ã— Bool Ã— Ty) â†’ Bool
+  | [] => true
+  | (_, skip, t) :: fs => (skip || wireZero t) && wireZeroFields fs
+end
+
 end Borsh
